@@ -530,3 +530,112 @@ def rule_forwarding(chk, prefix, keys=None):
                 good="parameters %s are all referenced on every path to a normal return" % params,
                 fail=lambda: "; ".join("parameter %r is dropped on the path %s" % (pn, w[:300]) for pn, w in missing), sites=len(params))
     return n
+
+
+# ---------------------------------------------------------------------------
+# per-instance state and definition-time defaults
+
+MUTATORS = {"append", "extend", "update", "pop", "popitem", "clear", "setdefault", "insert", "remove", "add", "discard", "appendleft", "sort"}
+
+# (module, class) -> {attribute: reason it is deliberately shared / not created in __init__}
+SHARED_BY_DESIGN = {
+    ("_output", "Logger"): {"_destinations": "the one process-wide Destinations registry (documented)"},
+}
+
+
+def _fresh_container(e):
+    """Expression that creates a new, unshared container / object at evaluation time."""
+    if isinstance(e, (ast.Dict, ast.List, ast.Set, ast.ListComp, ast.DictComp, ast.SetComp)):
+        return True
+    if isinstance(e, ast.Call):
+        if isinstance(e.func, ast.Attribute) and e.func.attr in ("copy", "deepcopy"):
+            return True
+        if isinstance(e.func, ast.Name) and e.func.id in ("dict", "list", "set", "deque", "OrderedDict", "defaultdict", "SimpleQueue", "Queue", "Lock", "RLock",
+                                                           "WeakKeyDictionary", "BufferingDestination", "Destinations"):
+            return True
+    if isinstance(e, ast.BinOp) and isinstance(e.op, ast.Add):
+        return True
+    return False
+
+
+def rule_instance_state(chk, prefix, classes):
+    """Every attribute that methods mutate in place through `self` is created per instance:
+    assigned in __init__ (or a method __init__ calls) from a fresh container, never only
+    defined at class level and never bound to a parameter's object without a copy."""
+    ctx = chk.ctx
+    for mod, cname in classes:
+        cls = ctx.cls(mod, cname)
+        allowed = SHARED_BY_DESIGN.get((mod, cname), {})
+        mutated = {}
+        for m in set(cls.methods.values()):
+            for n in ast.walk(m.node):
+                a = None
+                if isinstance(n, ast.Call) and isinstance(n.func, ast.Attribute) and n.func.attr in MUTATORS and is_self_attr(n.func.value):
+                    a = n.func.value.attr
+                elif isinstance(n, (ast.Assign, ast.AugAssign, ast.Delete)):
+                    tg = n.targets if not isinstance(n, ast.AugAssign) else [n.target]
+                    for t in tg:
+                        if isinstance(t, ast.Subscript) and is_self_attr(t.value):
+                            a = t.value.attr
+                if a:
+                    mutated.setdefault(a, []).append(m)
+        init = cls.find_method("__init__")
+        inits = [init] if init is not None else []
+        if init is not None:
+            for s in ctx.cg.sites.get(init, []):
+                for t in s.repo_targets():
+                    if t.cls is cls:
+                        inits.append(t)
+        for a in sorted(mutated):
+            if a in allowed:
+                continue
+            creations = []
+            for m in inits:
+                for n in iter_own_nodes(m.node):
+                    if isinstance(n, ast.Assign) and any(is_self_attr(t, a) for t in n.targets):
+                        creations.append((m, n))
+            class_level = a in cls.attrs
+            fresh = bool(creations) and all(_fresh_container(n.value) for m, n in creations)
+            # on every path of __init__ (so that no instance falls back to a class-level / stale object)
+            covered = False
+            if init is not None and creations:
+                icfg = ctx.cfg(init)
+                nodes = [x for x in icfg.live if any(x.ast is n for m, n in creations if m is init)]
+                nodes += [x for x in icfg.live for c, mm in calls_in_node(x) if any(t in [m for m, n in creations if m is not init] for t in ctx.targets(init, c))]
+                covered = bool(nodes) and icfg.must_pass([icfg.entry], [icfg.exit], nodes)[0]
+            chk.req(fresh and covered, "%s.state" % prefix, "%s.%s:per-instance-fresh-container" % (cname, a), chk.where(cls),
+                    good="created fresh in __init__ on every path; mutated in place by %s" % sorted({m.name for m in mutated[a]}),
+                    fail="self.%s is mutated in place by %s but is %s: state is shared between instances (or with the caller's object) and leaks from one use to the next"
+                         % (a, sorted({m.name for m in mutated[a]}),
+                            "only a class-level attribute" if (class_level and not creations) else
+                            ("not created in __init__" if not creations else
+                             ("bound to %s, not a fresh container" % [unparse(n.value)[:40] for m, n in creations if not _fresh_container(n.value)] if not fresh else
+                              "not created on every path of __init__"))))
+
+
+IMMUTABLE_DEFAULT_CALLS = {"pvector", "pmap", "pset", "object", "frozenset", "tuple"}
+
+
+def rule_defaults(chk, prefix, modules=None):
+    """No parameter default is a mutable literal or a call evaluated once at definition time
+    (a timestamp, a uuid, a list or dict shared by every call)."""
+    ctx = chk.ctx
+    n = 0
+    bad = []
+    for f in ctx.p.all_funcs():
+        if modules is not None and f.module.short not in modules:
+            continue
+        a = f.node.args
+        for d in list(a.defaults) + [k for k in a.kw_defaults if k is not None]:
+            n += 1
+            if isinstance(d, (ast.List, ast.Dict, ast.Set, ast.ListComp, ast.DictComp)):
+                bad.append((f, d, "a mutable literal"))
+            elif isinstance(d, ast.Call):
+                name = unparse(d.func).split(".")[-1]
+                if name not in IMMUTABLE_DEFAULT_CALLS:
+                    bad.append((f, d, "a call evaluated once, when the function is defined"))
+    for f, d, why in bad:
+        chk.bad("%s.state" % prefix, "%s:default-%s" % (f.fq, unparse(d)[:30]), chk.where(f, d.lineno),
+                "parameter default `%s` is %s: every call shares it" % (unparse(d)[:50], why))
+    if not bad:
+        chk.ok("%s.state" % prefix, "production-functions:no-shared-defaults", "eliot/", "%d parameter defaults examined; none is a mutable literal or a definition-time call" % n, sites=n)
